@@ -175,6 +175,7 @@ func main() {
 			}
 		}
 	}
+	views := retentionSites(root, fset)
 	fmt.Println("(* generated by harness/srcfacts from the working tree of /repo - do not edit *)")
 	fmt.Println("From Coq Require Import List String.")
 	fmt.Println("From LOF Require Import Model.SrcTypes.")
@@ -196,6 +197,258 @@ func main() {
 		fmt.Printf("  (\"%s\", [%s])%s\n", k, strings.Join(parts, "; "), sep)
 	}
 	fmt.Println("].")
+	fmt.Println("(* decoder sites reachable from Parse that keep a view of the input buffer instead of a copy *)")
+	fmt.Println("Definition view_sites : list string := [")
+	for i, v := range views {
+		sep := ";"
+		if i == len(views)-1 {
+			sep = ""
+		}
+		fmt.Printf("  \"%s\"%s\n", strings.ReplaceAll(v, "\"", "'"), sep)
+	}
+	fmt.Println("].")
+}
+
+// ---------------------------------------------------------------- retention analysis
+//
+// Decoders reachable from openflow13.Parse: closure over (a) functions called by name,
+// (b) T.UnmarshalBinary for every type T that a reachable function creates (new(T), &T{},
+// T{}, NewT()) or that is the type of a struct field of a reachable type.  In each of them an
+// expression rooted at a []byte parameter (or at a local alias of one) is a retention site
+// when it is stored: assigned to a field / element, appended as an element (no ...), put in a
+// composite literal, or wrapped by a Buffer constructor whose result is stored in a field.
+// Uses that copy are fine: copy(), append(dst, src...), binary.*.UintN, net.IPv4(...),
+// indexing, (*Buffer).Write, passing on to another decoder (analysed in turn).
+type fnKey struct{ pkg, recv, name string }
+
+func retentionSites(root string, fset *token.FileSet) []string {
+	pkgs := []string{"common", "openflow13", "protocol", "util"}
+	funcs := map[fnKey]*ast.FuncDecl{}
+	structFields := map[string][]string{} // pkg.T -> field type names (pkg-qualified when local)
+	ctorOf := map[string]string{}         // pkg.NewT -> pkg.T (by "returns *T" / body creates T)
+	for _, pkg := range pkgs {
+		files, _ := filepath.Glob(filepath.Join(root, pkg, "*.go"))
+		for _, f := range files {
+			if strings.HasSuffix(f, "_test.go") {
+				continue
+			}
+			src, _ := os.ReadFile(f)
+			if strings.Contains(string(src[:min(len(src), 200)]), "go:build verif") {
+				continue
+			}
+			af, err := parser.ParseFile(fset, f, src, 0)
+			if err != nil {
+				continue
+			}
+			for _, d := range af.Decls {
+				switch x := d.(type) {
+				case *ast.FuncDecl:
+					recv := ""
+					if x.Recv != nil && len(x.Recv.List) > 0 {
+						recv = typeName(x.Recv.List[0].Type)
+					}
+					funcs[fnKey{pkg, recv, x.Name.Name}] = x
+					if recv == "" && x.Type.Results != nil && len(x.Type.Results.List) > 0 {
+						if tn := typeName(x.Type.Results.List[0].Type); tn != "" {
+							ctorOf[pkg+"."+x.Name.Name] = qualify(pkg, tn)
+						}
+					}
+				case *ast.GenDecl:
+					for _, sp := range x.Specs {
+						ts, ok := sp.(*ast.TypeSpec)
+						if !ok {
+							continue
+						}
+						if st, ok := ts.Type.(*ast.StructType); ok {
+							for _, fl := range st.Fields.List {
+								if tn := typeName(fl.Type); tn != "" {
+									structFields[pkg+"."+ts.Name.Name] = append(structFields[pkg+"."+ts.Name.Name], qualify(pkg, tn))
+								}
+							}
+						}
+					}
+				}
+			}
+		}
+	}
+	reach := map[fnKey]bool{}
+	types := map[string]bool{}
+	var todo []fnKey
+	addFn := func(k fnKey) {
+		if _, ok := funcs[k]; ok && !reach[k] {
+			reach[k] = true
+			todo = append(todo, k)
+		}
+	}
+	var addType func(t string)
+	addType = func(t string) {
+		if types[t] {
+			return
+		}
+		types[t] = true
+		parts := strings.SplitN(t, ".", 2)
+		if len(parts) == 2 {
+			addFn(fnKey{parts[0], parts[1], "UnmarshalBinary"})
+			addFn(fnKey{parts[0], parts[1], "UnmarshalHeader"})
+		}
+		for _, ft := range structFields[t] {
+			addType(ft)
+		}
+	}
+	addFn(fnKey{"openflow13", "", "Parse"})
+	for len(todo) > 0 {
+		k := todo[len(todo)-1]
+		todo = todo[:len(todo)-1]
+		fd := funcs[k]
+		if fd.Body == nil {
+			continue
+		}
+		ast.Inspect(fd.Body, func(n ast.Node) bool {
+			switch x := n.(type) {
+			case *ast.CallExpr:
+				switch f := x.Fun.(type) {
+				case *ast.Ident:
+					if f.Name == "new" && len(x.Args) == 1 {
+						if tn := typeName(x.Args[0]); tn != "" {
+							addType(qualify(k.pkg, tn))
+						}
+					}
+					addFn(fnKey{k.pkg, "", f.Name})
+					if t, ok := ctorOf[k.pkg+"."+f.Name]; ok {
+						addType(t)
+					}
+				case *ast.SelectorExpr:
+					if p, ok := f.X.(*ast.Ident); ok {
+						addFn(fnKey{p.Name, "", f.Sel.Name})
+						if t, ok := ctorOf[p.Name+"."+f.Sel.Name]; ok {
+							addType(t)
+						}
+					}
+				}
+			case *ast.CompositeLit:
+				if tn := typeName(x.Type); tn != "" {
+					addType(qualify(k.pkg, tn))
+				}
+			}
+			return true
+		})
+	}
+	var sites []string
+	keys := make([]fnKey, 0, len(reach))
+	for k := range reach {
+		keys = append(keys, k)
+	}
+	sort.Slice(keys, func(i, j int) bool { return fmt.Sprint(keys[i]) < fmt.Sprint(keys[j]) })
+	for _, k := range keys {
+		fd := funcs[k]
+		if fd.Body == nil || fd.Type.Params == nil {
+			continue
+		}
+		tainted := map[string]bool{}
+		for _, p := range fd.Type.Params.List {
+			if at, ok := p.Type.(*ast.ArrayType); ok && at.Len == nil {
+				if id, ok := at.Elt.(*ast.Ident); ok && id.Name == "byte" {
+					for _, n := range p.Names {
+						tainted[n.Name] = true
+					}
+				}
+			}
+		}
+		if len(tainted) == 0 {
+			continue
+		}
+		var view func(e ast.Expr) bool // is e a view of the input?
+		view = func(e ast.Expr) bool {
+			switch x := e.(type) {
+			case *ast.Ident:
+				return tainted[x.Name]
+			case *ast.SliceExpr:
+				return view(x.X)
+			case *ast.ParenExpr:
+				return view(x.X)
+			case *ast.StarExpr:
+				return view(x.X)
+			case *ast.UnaryExpr:
+				return view(x.X)
+			case *ast.CallExpr: // conversions such as net.IP(data[a:b]) and Buffer constructors keep the view
+				if len(x.Args) == 1 && view(x.Args[0]) {
+					name := ""
+					switch f := x.Fun.(type) {
+					case *ast.Ident:
+						name = f.Name
+					case *ast.SelectorExpr:
+						name = f.Sel.Name
+					}
+					switch name {
+					case "NewBuffer", "IP", "HardwareAddr":
+						return true
+					}
+				}
+			}
+			return false
+		}
+		where := func(n ast.Node) string {
+			return fmt.Sprintf("%s.%s%s at %s", k.pkg, map[bool]string{true: k.recv + ".", false: ""}[k.recv != ""], k.name, strings.TrimPrefix(fset.Position(n.Pos()).String(), root+"/"))
+		}
+		ast.Inspect(fd.Body, func(n ast.Node) bool {
+			switch x := n.(type) {
+			case *ast.AssignStmt:
+				for i, r := range x.Rhs {
+					if i >= len(x.Lhs) || !view(r) {
+						continue
+					}
+					if id, ok := x.Lhs[i].(*ast.Ident); ok { // a local alias
+						tainted[id.Name] = true
+					} else {
+						sites = append(sites, where(x)+": stores a sub-slice of the input")
+					}
+				}
+			case *ast.CallExpr:
+				if id, ok := x.Fun.(*ast.Ident); ok && id.Name == "append" && x.Ellipsis == token.NoPos {
+					for _, a := range x.Args[1:] {
+						if view(a) {
+							sites = append(sites, where(x)+": appends a sub-slice of the input as an element")
+						}
+					}
+				}
+			case *ast.KeyValueExpr:
+				if view(x.Value) {
+					sites = append(sites, where(x)+": composite literal keeps a sub-slice of the input")
+				}
+			case *ast.ReturnStmt:
+				for _, r := range x.Results {
+					if view(r) {
+						sites = append(sites, where(x)+": returns a sub-slice of the input")
+					}
+				}
+			}
+			return true
+		})
+	}
+	return sites
+}
+
+func typeName(e ast.Expr) string {
+	switch x := e.(type) {
+	case *ast.Ident:
+		return x.Name
+	case *ast.StarExpr:
+		return typeName(x.X)
+	case *ast.SelectorExpr:
+		if p, ok := x.X.(*ast.Ident); ok {
+			return p.Name + "." + x.Sel.Name
+		}
+	case *ast.ArrayType:
+		return typeName(x.Elt)
+	}
+	return ""
+}
+
+func qualify(pkg, t string) string {
+	if strings.Contains(t, ".") {
+		return t
+	}
+	return pkg + "." + t
 }
 
 // classifyXid looks at how the closure returned by NewHeaderGenerator obtains the id
